@@ -333,7 +333,43 @@ func (ex *Exec) findSentinels() {
 // checkImmutable registers the heap keys of fields declared immutable and proves the
 // declaration by a scan of the whole program: a store to such a field is allowed only
 // through a pointer to an object allocated in the same function (construction).
+// applyFrozen: dependency types declared frozen in a spec file - every field path (to depth 3) survives heap havoc.
+func (ex *Exec) applyFrozen() {
+	for _, f := range ex.lib.Frozen {
+		i := strings.LastIndex(f, ".")
+		if i < 0 {
+			ex.errs = append(ex.errs, "bad frozen declaration "+f)
+			continue
+		}
+		var named *types.Named
+		for _, p := range ex.prog.AllPackages() {
+			if p.Pkg.Path() == f[:i] {
+				if t, ok := p.Members[f[i+1:]].(*ssa.Type); ok {
+					named, _ = t.Type().(*types.Named)
+				}
+			}
+		}
+		if named == nil {
+			continue // the package is not part of this property's program
+		}
+		var walk func(t types.Type, path []int, depth int)
+		walk = func(t types.Type, path []int, depth int) {
+			st, ok := t.Underlying().(*types.Struct)
+			if !ok || depth > 3 {
+				return
+			}
+			for k := 0; k < st.NumFields(); k++ {
+				np := append(append([]int{}, path...), k)
+				ex.immutableKeys[pathKey(named, np)] = true
+				walk(st.Field(k).Type(), np, depth+1)
+			}
+		}
+		walk(named, nil, 0)
+	}
+}
+
 func (ex *Exec) checkImmutable() {
+	ex.applyFrozen()
 	if len(ex.lib.Immutable) == 0 {
 		return
 	}
